@@ -148,7 +148,12 @@ class AsyncSocket(base_socket.BaseSocket):
             return self.server._bad_request()
         ws = self.server._async['websocket'](
             self._websocket_handler, self.server)
-        return await ws(environ)
+        try:
+            return await ws(environ)
+        finally:
+            # a handshake that failed with an error must not leave the
+            # polling transport on hold
+            self.upgrading = False
 
     async def _websocket_handler(self, ws):
         """Engine.IO handler for websocket transport."""
